@@ -2,6 +2,7 @@
 Require Import Wbxml.Model.Codec.
 Require Import Wbxml.Model.EncWbxml.
 Require Import Wbxml.Model.EncWbxmlTables.
+Require Import Wbxml.Model.EncWbxmlTextPid.
 Require Extraction.
 Require Import ExtrOcamlBasic.
-Extraction "model.ml" enc_wbxml enc_body fill_header enc_env find_lang main_btable strtbl_initialize.
+Extraction "model.ml" enc_wbxml enc_wbxml_textpid enc_body fill_header enc_env find_lang main_btable strtbl_initialize.
